@@ -1353,6 +1353,175 @@ _tree_rule('B7', 'every struct that extends an enumerating struct must be listed
 _tree_rule('B8', 'a listed leaf subtype cannot itself be extended', _b8)
 
 
+# ================================================================================================ the same rules through alias chains
+#
+# Every rule whose violation can be reached through an alias is injected again with the offending type behind a chain of
+# two or three aliases (declared in any order, in any file of the namespace) and behind a chain that crosses an import
+# (`alias Near = far.Far` in the namespace, `alias Far = <target>` in a namespace it imports): a check that looks
+# exactly one alias level down, or only at aliases of the current namespace, passes the one-alias injections above.
+
+VIAS = ('chain2', 'chain3', 'xns')
+
+
+def _far_ns(model, ns, rng):
+    """a fresh namespace (imports nothing) that `ns` imports; appended, so that site handles (index paths) stay valid --
+    the shuffled layouts put its file before or after the files of `ns`"""
+    i = 0
+    while sg.find_ns(model, 'zq_far%s' % (i or '')) is not None:
+        i += 1
+    far = Namespace('zq_far%s' % (i or ''), defs=[], files=[])
+    model.namespaces.append(far)
+    ns.imports.append(far.name)
+    return far
+
+
+def via_alias(model, ns, target, rng, via, far_defs=()):
+    """-> TypeRef (to be written in `ns`) of an alias that reaches `target` through 2 / 3 aliases of `ns`, or through
+    an alias of `ns` whose target is an alias in another, imported namespace.  `target` may only mention built-in types
+    and the definitions in `far_defs`, which are added to the namespace that holds the innermost alias."""
+    if via == 'xns':
+        far = _far_ns(model, ns, rng)
+        for d in far_defs:
+            add_def(far, d, rng)
+        a1 = fresh(model, far, 'ZqFarAlias')
+        add_def(far, Alias(a1, target), rng)
+        a2 = fresh(model, ns, 'ZqNearAlias')
+        add_def(ns, Alias(a2, TypeRef(a1, ns=far.name)), rng)
+        return TypeRef(a2)
+    for d in far_defs:
+        add_def(ns, d, rng)
+    cur = target
+    for i in range({'chain2': 2, 'chain3': 3}[via]):
+        a = fresh(model, ns, 'ZqVia%s' % 'ABC'[i])
+        add_def(ns, Alias(a, cur), rng)
+        cur = TypeRef(a)
+    return cur
+
+
+def _top_fields(model):
+    return [s for s in plain_slots(model, ('field',)) if not s[4] and
+            model.namespaces[s[0]].defs[s[1]].kind in ('struct', 'struct_patch')]
+
+
+@rule('A12.chain', '`V?` where V is an alias (of an alias ...) of Void: Void cannot be nullable')
+class _A12c:
+    def sites(model):
+        return [s + (v,) for s in plain_slots(model) for v in VIAS]
+
+    def apply(model, s, rng):
+        t = via_alias(model, model.namespaces[s[0]], TypeRef('Void'), rng, s[5])
+        t.nullable = True
+        set_field_slot_clean(model, s[:5], t)
+
+
+@rule('A15.chain', 'nullable of a nullable reached through a chain of aliases / an alias of an imported namespace')
+class _A15c:
+    def sites(model):
+        return [s + (v,) for s in plain_slots(model) for v in VIAS]
+
+    def apply(model, s, rng):
+        t = via_alias(model, model.namespaces[s[0]], TypeRef(rng.choice(('String', 'Int64', 'Bytes')), nullable=True), rng, s[5])
+        t.nullable = True
+        set_field_slot_clean(model, s[:5], t)
+
+
+@rule('A20.key.chain', 'Map key type that is an alias (chain) of a non-String type')
+class _A20kc:
+    def sites(model):
+        return [s + (v,) for s in plain_slots(model) for v in VIAS]
+
+    def apply(model, s, rng):
+        k = via_alias(model, model.namespaces[s[0]], TypeRef(rng.choice(('Int32', 'Boolean', 'Bytes'))), rng, s[5])
+        set_field_slot_clean(model, s[:5], TypeRef('Map', args=[k, TypeRef('String')]))
+
+
+@rule('A21.chain', 'a struct cannot extend an alias (chain) of a struct')
+class _A21c:
+    def sites(model):
+        return [(ni, di, v) for ni, di in _structs(model, lambda ns, d: d.subtypes is None and _no_subtree(model, ns, d)) for v in VIAS]
+
+    def apply(model, s, rng):
+        ns = model.namespaces[s[0]]
+        d = ns.defs[s[1]]
+        tgt = fresh(model, ns, 'ZqBaseS')
+        d.parent = via_alias(model, ns, TypeRef(tgt), rng, s[2], [mk_struct(tgt, [Field('zq_base_f', TypeRef('Int32'))])])
+
+
+@rule('A22.chain', 'a struct field whose type is an alias chain ending in Void')
+class _A22c:
+    def sites(model):
+        return [s + (v,) for s in _top_fields(model) for v in VIAS]
+
+    def apply(model, s, rng):
+        set_field_slot_clean(model, s[:5], via_alias(model, model.namespaces[s[0]], TypeRef('Void'), rng, s[5]))
+
+
+@rule('A23.chain', 'a default on a field whose type is an alias chain ending in a nullable type')
+class _A23c:
+    def sites(model):
+        return [s + (v,) for s in _top_fields(model) for v in VIAS]
+
+    def apply(model, s, rng):
+        base, v = rng.choice((('Int32', 1), ('String', 'x'), ('Boolean', True), ('Float64', 1.5)))
+        fl = members(model.namespaces[s[0]].defs[s[1]])[s[3]]
+        fl.type = via_alias(model, model.namespaces[s[0]], TypeRef(base, nullable=True), rng, s[5])
+        fl.default = v
+
+
+@rule('A27.chain', 'a default that is invalid for the type at the end of an alias chain: wrong kind, out of bounds, '
+      'unknown / non-void tag, a type that cannot have a default')
+class _A27ch:
+    def sites(model):
+        return [s + (v,) for s in _top_fields(model) for v in VIAS]
+
+    def apply(model, s, rng):
+        ns = model.namespaces[s[0]]
+        fl = members(ns.defs[s[1]])[s[3]]
+        how = rng.choice(('lit', 'bounds', 'tag', 'nonvoid', 'container'))
+        far_defs = []
+        if how == 'lit':
+            t, v = rng.choice(_A27)
+            tgt = TypeRef(t)
+        elif how == 'bounds':
+            tgt, v = rng.choice((
+                (TypeRef('Int32', kwargs={'max_value': 5}), 6), (TypeRef('UInt64', kwargs={'min_value': 10}), 9),
+                (TypeRef('String', kwargs={'max_length': 2}), 'abc'), (TypeRef('String', kwargs={'pattern': '[a-z]+'}), '123'),
+                (TypeRef('Float64', kwargs={'max_value': 1.5}), 2.5), (TypeRef('Timestamp', args=['%Y-%m-%d']), 'not a date')))
+        elif how == 'container':
+            tgt = rng.choice((TypeRef('List', args=[TypeRef('Int32')]), TypeRef('Map', args=[TypeRef('String'), TypeRef('Int32')])))
+            v = rng.choice((1, 'x', True))
+        else:
+            u = fresh(model, ns, 'ZqTagUnion')
+            far_defs = [mk_union(u, [Field('zq_void_tag'), Field('zq_int_tag', TypeRef('Int32'))])]
+            tgt = TypeRef(u)
+            v = TagRef('zq_missing_tag' if how == 'tag' else 'zq_int_tag')
+        fl.type = via_alias(model, ns, tgt, rng, s[5], far_defs)
+        fl.default = v
+
+
+@rule('A28.chain', 'a union cannot extend an alias (chain) of a union')
+class _A28c:
+    def sites(model):
+        return [(ni, di, v) for ni, di in _structs(model, kinds=('union',)) for v in VIAS]
+
+    def apply(model, s, rng):
+        ns = model.namespaces[s[0]]
+        d = ns.defs[s[1]]
+        tgt = fresh(model, ns, 'ZqBaseU')
+        d.parent = via_alias(model, ns, TypeRef(tgt), rng, s[2], [mk_union(tgt, [Field('zq_base_t')], closed=d.closed)])
+
+
+def _b2_chain(model, ns, root, rng):
+    """an alias chain that ends in a struct which does extend the root is still not a struct"""
+    n = fresh(model, ns, 'ZqChainLeaf')
+    leaf = Struct(n, parent=TypeRef(root.name), fields=[Field('zq_chain_leaf_f', TypeRef('Int32'))])
+    t = via_alias(model, ns, TypeRef(n), rng, rng.choice(('chain2', 'chain3')), [leaf])
+    root.subtypes[0].append(('zq_tag_alias_chain', t))
+
+
+_tree_rule('B2.chain', 'an enumerated subtype given through a chain of aliases of a struct', _b2_chain)
+
+
 # ================================================================================================ tier B: patches
 
 def _patch_of(d, fields, examples=None):
